@@ -818,6 +818,24 @@ static void conc_state_cb(const struct rtr_socket *sock, const enum rtr_socket_s
 		__atomic_store_n(&RELOADING, 0, __ATOMIC_SEQ_CST);
 }
 
+static uint64_t UPDATE_CALLBACKS;
+
+static void count_pfx_cb(struct pfx_table *t, const struct pfx_record rec, const bool added)
+{
+	(void)t;
+	(void)rec;
+	(void)added;
+	__atomic_fetch_add(&UPDATE_CALLBACKS, 1, __ATOMIC_RELAXED);
+}
+
+static void count_spki_cb(struct spki_table *t, const struct spki_record rec, const bool added)
+{
+	(void)t;
+	(void)rec;
+	(void)added;
+	__atomic_fetch_add(&UPDATE_CALLBACKS, 1, __ATOMIC_RELAXED);
+}
+
 static void run_reload_case(struct rng *r, long c, int nepoch, int nrec, int nreaders)
 {
 	static struct sim S;
@@ -899,8 +917,12 @@ static void run_reload_case(struct rng *r, long c, int nepoch, int nrec, int nre
 	s->cache.eod_retry = 1;
 	s->cache.eod_expire = 7200;
 	sim_cache_push_dataset(s, &DSP[0], &DSK[0]);
-	pfx_table_init(&pt, NULL);
-	spki_table_init(&kt, NULL);
+	/* every other case the application has update callbacks installed, as rtr_mgr users normally do: the reload then
+	 * also runs its change notification over the old and the new table */
+	pfx_table_init(&pt, (c & 1) ? count_pfx_cb : NULL);
+	spki_table_init(&kt, (c & 1) ? count_spki_cb : NULL);
+	if (c & 1)
+		CNT("c06/cases_with_update_callbacks");
 	memset(&sock, 0, sizeof(sock));
 	sim_attach(s, &sock, &pt, &kt);
 	/* static other source */
@@ -1030,6 +1052,7 @@ int main(int argc, char **argv)
 		CNT("conc/runs");
 	}
 	cnt_add("conc/reader_allocations_delayed", ALLOC_DELAYS);
+	cnt_add("c06/update_callbacks_delivered", UPDATE_CALLBACKS);
 	vo_close();
 	return 0;
 }
